@@ -1,3 +1,3 @@
 From Coq Require Extraction ExtrOcamlBasic ExtrOcamlString.
-From MechV Require Import Model.Doc.
-Extraction "ocaml/C10/model.ml" run_line.
+From MechV Require Import Model.DocScan.
+Extraction "ocaml/C10/model.ml" DocScan.run_line.
